@@ -124,12 +124,12 @@ def opt_result_programs():
 KINDS = ["place", "let", "let_ty", "wild"]
 
 
-def rebind_programs():
+def rebind_programs(tier="quick"):
     """try_rebind! / rebind_if_ok! for every arity 1..=6 and assignment of position kinds"""
     out = []
     combos = []
     for n in range(1, 7):
-        if n <= 3:
+        if n <= (4 if tier == "thorough" else 3):
             combos += [(n, c) for c in itertools.product(KINDS, repeat=n)]
         else:
             combos += [(n, tuple([k] * n)) for k in KINDS]
@@ -194,7 +194,7 @@ def run(tier, seed, drv):
     t0 = time.time()
     rep = {"violations": [], "violations_total": 0, "notes": [], "machinery_errors": [], "samples": [], "nontrivial_samples": []}
     ps = e3.ProgSet("C19", "c19", 8, e3.RUNNER_SUPPORT, prelude=PRELUDE)
-    allp = opt_result_programs() + rebind_programs()
+    allp = opt_result_programs() + rebind_programs(tier)
     names = {}
     for i, (name, body) in enumerate(allp):
         names[i] = name
@@ -230,7 +230,7 @@ def run(tier, seed, drv):
     rep["evaluations"] = evals
     rep["distinct_nontrivial"] = nontriv
     rep["distinct_outcomes"] = sum(r["outcomes"] for r in res)
-    rep["rule"] = ("program = one macro x argument form (closure / function path), executed on every value of its small input set next to the std method / `?` / std::cmp function; observation = returned value + number of fallback/closure calls (identity of the returned argument for min/max via a key-only ordering on (key,id) values); rebind: every arity 1..=6 x position kinds {place, let, let: T, _} (all assignments for arity <= 3, uniform + single-position variations above), both Ok and Err, plus places that depend on earlier components; a program rustc rejects is a violation (the property demands every listed form); non-trivial = programs with more than one distinct outcome")
+    rep["rule"] = ("program = one macro x argument form (closure / function path), executed on every value of its small input set next to the std method / `?` / std::cmp function; observation = returned value + number of fallback/closure calls (identity of the returned argument for min/max via a key-only ordering on (key,id) values); rebind: every arity 1..=6 x position kinds {place, let, let: T, _} (all assignments for arity <= 3 (thorough: <= 4), uniform + single-position variations above), both Ok and Err, plus places that depend on earlier components; a program rustc rejects is a violation (the property demands every listed form); non-trivial = programs with more than one distinct outcome")
     rep["bounds"] = f"{len(allp)} programs; Option<u8> x {{None,Some(0),Some(1),Some(255)}}, Option<&str> x 3, Result<u8,&str> x 5, all 30 ordered pairs of 6 (key,id) values over keys 0..3"
     rep["samples"] = [names[i] for i in list(names)[:4]] + [names[len(names) // 2], names[len(names) - 1]]
     rep["extra"] = {"programs": len(allp), "rejected_by_rustc": len(rejected), "disagreements_checked": len(viol)}
